@@ -301,3 +301,4 @@ class C13(Base):
 
 
 P = C13()
+P.RULE = P.RULE + ' A look-alike family (characters whose code point ends in the byte of a backslash, a quote, `u`, `U`, `{`) with and without escapes around them; literals that decode to the variant key of the selector form.'
